@@ -28,6 +28,7 @@ thread_local! {
     static CUR: RefCell<Option<Arc<Ctl>>> = const { RefCell::new(None) };
     static ROLE: Cell<u8> = const { Cell::new(0) };
     static TRNG: RefCell<Rng> = RefCell::new(Rng::new(0));
+    static NO_DELAY: Cell<bool> = const { Cell::new(false) };
 }
 
 #[derive(Clone, Copy, PartialEq, Eq, Debug)]
@@ -36,6 +37,8 @@ pub enum CtlMode {
     Record,
     Sweep,
     Chaos,
+    /// no delays, no trace: threads run at full speed (real contention)
+    Hammer,
 }
 
 /// Schedule control of one scenario. Reached through a thread-local, so many
@@ -82,6 +85,7 @@ impl Ctl {
                 self.trace.lock().unwrap().push((role, name));
                 chaos_delay();
             }
+            CtlMode::Hammer => {}
         }
     }
     pub fn trace_hash(&self) -> u64 {
@@ -96,6 +100,9 @@ impl Ctl {
 
 /// Random perturbation used by chaos mode (also called from manager callbacks).
 pub fn chaos_delay() {
+    if NO_DELAY.with(|n| n.get()) {
+        return;
+    }
     let x = TRNG.with(|r| r.borrow_mut().below(100));
     match x {
         0..=49 => {}
@@ -137,10 +144,12 @@ pub fn enter(ctl: &Arc<Ctl>, role: u8) {
     install_handler();
     CUR.with(|c| *c.borrow_mut() = Some(ctl.clone()));
     ROLE.with(|r| r.set(role));
+    NO_DELAY.with(|n| n.set(ctl.mode == CtlMode::Hammer));
 }
 pub fn leave() {
     CUR.with(|c| *c.borrow_mut() = None);
     ROLE.with(|r| r.set(0));
+    NO_DELAY.with(|n| n.set(false));
 }
 
 fn install_handler() {
